@@ -52,8 +52,10 @@ func hashTable(algs []int, keydata []byte) []hashEntry {
 
 // bindCase registers the correspondence case and runs the oracle.  expectSame: nil
 // when the property makes no statement (hand-made lists), else whether the key
-// whose hash was placed in the KM is the BPM signer's key.
-func (r *run) bindCase(b *bootguard.BootGuard, descr map[string]interface{}, expectSame *bool, recognisable bool) {
+// whose hash was placed in the KM is the BPM signer's key.  refused: the digest
+// placed is one the suite does not take as a BPM key hash (SHA1 in a BG 1.0 KM,
+// "everything more secure than SHA-1"): the check has to fail, for every key.
+func (r *run) bindCase(b *bootguard.BootGuard, descr map[string]interface{}, expectSame *bool, refused bool) {
 	c := r.c
 	hasO, hasV, mtO, mtV := observeBinding(b)
 	var lit string
@@ -86,17 +88,20 @@ func (r *run) bindCase(b *bootguard.BootGuard, descr map[string]interface{}, exp
 	has := hasO == oOk && hasV
 	mt := mtO == oOk && mtV
 	binding := has && mt
+	// the binding check is the conjunction bg-suite runs (KM test: KMHasBPMHash, BPM
+	// test: BPMKeyMatchKMHash); the BPM test alone must not report a match for
+	// another key either, nor without a hash it compared
+	want := *expectSame && !refused
 	switch {
-	case binding == *expectSame && !(mt && !*expectSame):
+	case binding == want && mt == want && hasO != oPanic && mtO != oPanic:
 		c.OracleOK()
-	case !recognisable && !has && (mt || !*expectSame):
-		// the stored hash is one the suite does not recognise as a BPM key hash
-		// (SHA1 in BG 1.0, shared usage in CBnT): KMHasBPMHash says no, and
-		// BPMKeyMatchKMHash says yes whatever the key
-		r.known[fBindingOpen]++
-		c.OracleFailKnown(idx, fBindingOpen, fmt.Sprintf("binding check not exact: same key = %v, KMHasBPMHash = %v, BPMKeyMatchKMHash = %v (the hash placed in the KM is not recognised, the key comparison is skipped and reported as a match)", *expectSame, has, mt), "bootguard.BPMKeyMatchKMHash", descr)
+		if refused {
+			c.Count("binding/refused-sha1-fails-closed")
+		}
+	case mt && !want:
+		c.OracleFail(idx, fmt.Sprintf("BPMKeyMatchKMHash reports a match although the BPM signer's key is not the key whose hash the KM holds as BPM key hash (same key = %v, hash recognised = %v, KMHasBPMHash = %v): a comparison was skipped and reported as a match", *expectSame, !refused, has), "bootguard.BPMKeyMatchKMHash", descr)
 	default:
-		c.OracleFail(idx, fmt.Sprintf("binding check wrong: BPM signer key is the key hashed into the KM = %v, but KMHasBPMHash = %v and BPMKeyMatchKMHash = %v", *expectSame, has, mt), "bootguard.BPMKeyMatchKMHash", descr)
+		c.OracleFail(idx, fmt.Sprintf("binding check wrong: BPM signer key is the key hashed into the KM = %v (hash recognised = %v), but KMHasBPMHash = %v and BPMKeyMatchKMHash = %v", *expectSame, !refused, has, mt), "bootguard.BPMKeyMatchKMHash", descr)
 	}
 }
 
@@ -152,7 +157,7 @@ func (r *run) binding() {
 				if err != nil {
 					continue
 				}
-				r.bindCase(both, map[string]interface{}{"km_hash_of": x, "km_hash_alg": alg, "bpm_signed_by": y}, bp(x == y), alg != "SHA1")
+				r.bindCase(both, map[string]interface{}{"km_hash_of": x, "km_hash_alg": alg, "bpm_signed_by": y}, bp(x == y), alg == "SHA1")
 			}
 			// CBnT
 			for ai, alg := range []string{"SHA256", "SHA384", "SM3", "SHA1"} {
@@ -179,14 +184,33 @@ func (r *run) binding() {
 				if err != nil {
 					continue
 				}
-				r.bindCase(both, map[string]interface{}{"km_hash_of": x, "km_hash_alg": alg, "bpm_signed_by": y, "hashes": len(km.VData.CBNTkm.Hash)}, bp(x == y), true)
-				// the same hash with a shared usage (BPM | ACM): bit 0 is normative
+				r.bindCase(both, map[string]interface{}{"km_hash_of": x, "km_hash_alg": alg, "bpm_signed_by": y, "hashes": len(km.VData.CBNTkm.Hash)}, bp(x == y), false)
+				// the same hash with a shared usage (BPM | ACM, BPM | SDEV | bit 40):
+				// bit 0 is normative (Usage is a bit mask), the key is compared like any other
 				if ai == 0 {
-					km2, _, _ := buildCbntKM(rg, pubOf(r.keys["A"]), pubOf(r.keys[x]), cbnt.AlgSHA256, alg, 0)
-					km2.VData.CBNTkm.Hash[0].Usage = cbntkey.UsageBPMSigningPKD | cbntkey.UsageACMManifestSigningPKD
-					both2, err := bootguard.NewVData(bootguard.VersionedData{CBNTkm: km2.VData.CBNTkm, CBNTbpm: cbBPM[y].VData.CBNTbpm})
-					if err == nil {
-						r.bindCase(both2, map[string]interface{}{"km_hash_of": x, "km_hash_alg": alg, "bpm_signed_by": y, "usage": 5}, bp(x == y), false)
+					for _, us := range []cbntkey.Usage{cbntkey.UsageBPMSigningPKD | cbntkey.UsageACMManifestSigningPKD, cbntkey.UsageBPMSigningPKD | cbntkey.UsageSDEVSigningPKD | 1<<40} {
+						km2, _, _ := buildCbntKM(rg, pubOf(r.keys["A"]), pubOf(r.keys[x]), cbnt.AlgSHA256, alg, 0)
+						km2.VData.CBNTkm.Hash[0].Usage = us
+						both2, err := bootguard.NewVData(bootguard.VersionedData{CBNTkm: km2.VData.CBNTkm, CBNTbpm: cbBPM[y].VData.CBNTbpm})
+						if err == nil {
+							r.bindCase(both2, map[string]interface{}{"km_hash_of": x, "km_hash_alg": alg, "bpm_signed_by": y, "usage": uint64(us)}, bp(x == y), false)
+						}
+					}
+					// a KM that holds NO BPM key hash (only entries of other usages, or none):
+					// nothing was placed for any key, the check has to fail for every BPM
+					for _, extra := range []int{0, 2} {
+						km3, _, _ := buildCbntKM(rg, pubOf(r.keys["A"]), pubOf(r.keys[x]), cbnt.AlgSHA256, alg, extra)
+						var rest []cbntkey.Hash
+						for _, h := range km3.VData.CBNTkm.Hash {
+							if !h.Usage.IsSet(cbntkey.UsageBPMSigningPKD) {
+								rest = append(rest, h)
+							}
+						}
+						km3.VData.CBNTkm.Hash = rest
+						both3, err := bootguard.NewVData(bootguard.VersionedData{CBNTkm: km3.VData.CBNTkm, CBNTbpm: cbBPM[y].VData.CBNTbpm})
+						if err == nil {
+							r.bindCase(both3, map[string]interface{}{"km_hash_of": "(no BPM entry)", "bpm_signed_by": y, "hashes": len(rest)}, bp(false), false)
+						}
 					}
 				}
 			}
@@ -198,7 +222,7 @@ func (r *run) binding() {
 			continue
 		}
 		for _, sp := range r.signed {
-			if sp.doc != 1 || sp.gen != sf.gen || (sp.by == "suite") == (sp.gen == 1) {
+			if sp.doc != 1 || sp.gen != sf.gen || sp.by != "suite" || !sp.verifies {
 				continue
 			}
 			both, err := bootguard.NewBPMAndKM(bytes.NewReader(sp.file), bytes.NewReader(sf.file))
@@ -207,12 +231,12 @@ func (r *run) binding() {
 			}
 			// KM files of signAll carry the hash of the matching BPM key (A->B, D->E)
 			same := (sf.desc["key"] == "A" && sp.desc["key"] == "B") || (sf.desc["key"] == "D" && sp.desc["key"] == "E")
-			rec := sf.desc["bpmhash"] != "SHA1" || sf.gen == 2
+			refused := sf.desc["bpmhash"] == "SHA1" && sf.gen == 1
 			exp := bp(same)
 			if n, ok := sf.desc["hashes"].(int); ok && n == 0 {
 				exp = nil // a KM without hashes: nothing was placed in it
 			}
-			r.bindCase(both, map[string]interface{}{"km_file": sf.name, "bpm_file": sp.name}, exp, rec)
+			r.bindCase(both, map[string]interface{}{"km_file": sf.name, "bpm_file": sp.name}, exp, refused)
 			break
 		}
 	}
@@ -251,6 +275,7 @@ func (r *run) binding() {
 			both, err := bootguard.NewVData(bootguard.VersionedData{BGkm: km.VData.BGkm, BGbpm: &bpm})
 			if err == nil {
 				r.bindCase(both, map[string]interface{}{"handmade": i}, nil, false)
+				r.neverOpen(both, i)
 			}
 		}
 	}
@@ -294,7 +319,46 @@ func (r *run) binding() {
 			both, err := bootguard.NewVData(bootguard.VersionedData{CBNTkm: k, CBNTbpm: &bpm})
 			if err == nil {
 				r.bindCase(both, map[string]interface{}{"handmade": i}, nil, false)
+				r.neverOpen(both, i)
 			}
 		}
 	}
+}
+
+// neverOpen: on hand-made hash structures the property fixes no expected key, but
+// one thing holds for every KM/BPM pair: BPMKeyMatchKMHash may report a match only
+// if the KM holds a digest H(alg, modulus of the BPM key) -- recomputed here with
+// Go's hash functions -- under the BPM-signing usage (CBnT: bit 0) resp. as BPKey.
+func (r *run) neverOpen(b *bootguard.BootGuard, i int) {
+	c := r.c
+	_, _, mtO, mtV := observeBinding(b)
+	if !(mtO == oOk && mtV) {
+		c.OracleOK()
+		return
+	}
+	holds := false
+	if genOf(b) == 1 {
+		km, bpm := b.VData.BGkm, b.VData.BGbpm
+		kd := bpm.PMSE.KeySignature.Key.Data
+		if len(kd) >= 4 {
+			if d, ok := stdHash(int(km.BPKey.HashAlg), kd[4:]); ok && bytes.Equal(d, km.BPKey.HashBuffer) {
+				holds = true
+			}
+		}
+	} else {
+		km, bpm := b.VData.CBNTkm, b.VData.CBNTbpm
+		kd := bpm.PMSE.KeySignature.Key.Data
+		for _, h := range km.Hash {
+			if h.Usage&1 == 1 && len(kd) >= 4 {
+				if d, ok := stdHash(int(h.Digest.HashAlg), kd[4:]); ok && bytes.Equal(d, h.Digest.HashBuffer) {
+					holds = true
+				}
+			}
+		}
+	}
+	if holds {
+		c.OracleOK()
+		return
+	}
+	c.OracleFail(-1, "BPMKeyMatchKMHash reports a match although the KM holds no digest of the BPM key under the BPM-signing usage", "bootguard.BPMKeyMatchKMHash", map[string]interface{}{"handmade": i, "gen": genOf(b), "km_state": kmStateLit(b)})
 }
